@@ -131,8 +131,8 @@ inductive Reach : List Thread → List Thread → Prop
 /-- Invariant: every thread's remaining path is fine from its lock set, lock sets have no duplicates, and no mutex
     is in the lock sets of two different threads. -/
 structure Inv (pol : Policy) (ts : List Thread) : Prop where
-  rest : ∀ t ∈ ts, restOk pol t.held t.todo = true
-  nodup : ∀ t ∈ ts, t.held.Nodup
+  rest : ∀ (i : Nat) (t : Thread), ts[i]? = some t → restOk pol t.held t.todo = true
+  nodup : ∀ (i : Nat) (t : Thread), ts[i]? = some t → t.held.Nodup
   excl : ∀ (i j : Nat) (a b : Thread), ts[i]? = some a → ts[j]? = some b → i ≠ j → ∀ m, m ∈ a.held → m ∉ b.held
 
 end LyModel.Conc
